@@ -104,7 +104,7 @@ def grammar_case(rng):
     genc = gram.enc_grammar(g)
     lines = [Line("corr", "binarize", [reord or "none", gram.enc_markov(mo), genc], out)]
     if mo is None:
-        lines.append(Line("pred", "P.C07.unbin", [genc, out]))
+        lines.append(Line("pred", "P.C07.unbin", [reord or "none", genc, out]))
     # every rule on its own
     big = False
     for f in list(g)[:6]:
